@@ -115,6 +115,18 @@ def caret_obligations(rep):
         return
     m = repo.import_module(INIT)
     loop1, loop2, loop3 = loops
+    # The lemmas below are stated over error_location's own local variables. If the function keeps its state in differently named / shaped locals the
+    # lemmas do not apply ("representation changed", not a violation): they are reported as not established and the decision rests on the end-to-end
+    # caret oracle of the bounded part, which runs the real function on mutated sentences in four layouts.
+    assigned = {n.id for n in ast.walk(fd) if isinstance(n, ast.Name) and isinstance(n.ctx, ast.Store)}
+    need = {'lines_idx', 'line', 'lines', 'shift', 'error_index', 'error_line', 'error_line_num', 'error_len', 'msgs', 'first_line', 'token'}
+    t2 = loop2.target
+    shape_ok = isinstance(t2, ast.Tuple) and [getattr(x, 'id', None) for x in t2.elts] == ['i', 'line_num'] and 'enumerate' in ast.unparse(loop2.iter)
+    if not need <= assigned or not shape_ok:
+        for oid in ('C19.caret.place', 'C19.caret.shift.error-line', 'C19.caret.shift.other-line', 'C19.caret.final', 'C19.caret.select.eof', 'C19.caret.select.token'):
+            rep.undecided(oid, 'pysym', f'error_location keeps its state in other locals than the lemma speaks about (missing: {sorted(need - assigned)}; second loop `{ast.unparse(loop2.target)} in {ast.unparse(loop2.iter)[:40]}`): '
+                          'lemma not applicable, decision rests on the bounded caret oracle', function=fn, soft=True)
+        return
 
     class Lines(ModelObj):
         """lines_idx: defaultdict(str) keyed by line number; one symbolic current line"""
@@ -317,11 +329,13 @@ def lexerr_obligations(rep):
     fn = f'{d.lexer_module}:MindsDBLexer.error'
     fd = repo.find_function(d.lexer_module, 'MindsDBLexer.error')
     sl = None
+    # the slice of source lines that is shown: any `lines[a:b]` the function iterates (statement loop, comprehension or generator)
     for n in ast.walk(fd):
-        if isinstance(n, ast.For) and isinstance(n.iter, ast.Subscript) and isinstance(n.iter.slice, ast.Slice) and isinstance(n.iter.value, ast.Name) and n.iter.value.id == 'lines':
-            sl = n.iter.slice
+        it = n.iter if isinstance(n, (ast.For, ast.comprehension)) else None
+        if it is not None and isinstance(it, ast.Subscript) and isinstance(it.slice, ast.Slice) and isinstance(it.value, ast.Name):
+            sl = it.slice
     if sl is None:
-        rep.undecided('C19.lexerr.slice', 'smt:z3', 'no `for line in lines[a:b]` in MindsDBLexer.error', function=fn)
+        rep.undecided('C19.lexerr.slice', 'smt:z3', 'no iteration over a slice `lines[a:b]` in MindsDBLexer.error', function=fn)
         return
     e, n = z3.Int('error_line'), z3.Int('n_lines')
 
